@@ -98,6 +98,18 @@ theorem lo_two_step (nf as0 r20 r1 r2 A1 A2 : ℝ) (h0 : 0 < r20) (h1 : 0 < r1) 
   have hne : loDen nf A1 L2 ≠ 0 := by rw [hden]; exact div_ne_zero d2 d1
   rw [if_neg hne, hden, ← e2, ← e1, div_div_div_cancel_right₀ d1]
 
+/-- **running there and back again returns the reference value** (exactly, at LO): r20 → r1 → r20 -/
+theorem lo_round_trip (nf as0 r20 r1 A1 : ℝ) (h0 : 0 < r20) (h1 : 0 < r1)
+    (e1 : as2pf 0 nf r1 as0 r20 = .ok A1) : as2pf 0 nf r20 A1 r1 = .ok as0 :=
+  lo_two_step nf as0 r20 r1 r20 A1 as0 h0 h1 h0 e1 (lo_reference_value nf as0 r20 h0.ne')
+
+/-- the choice of the reference point is immaterial: two callers that describe the same coupling through different
+    reference points (r20, as0) and (r1, A1) get the same value at every scale -/
+theorem lo_reference_point_immaterial (nf as0 r20 r1 r2 A1 A2 : ℝ) (h0 : 0 < r20) (h1 : 0 < r1) (h2 : 0 < r2)
+    (e1 : as2pf 0 nf r1 as0 r20 = .ok A1) (e2 : as2pf 0 nf r2 as0 r20 = .ok A2) :
+    as2pf 0 nf r2 A1 r1 = as2pf 0 nf r2 as0 r20 := by
+  rw [lo_two_step nf as0 r20 r1 r2 A1 A2 h0 h1 h2 e1 e2, e2]
+
 /-- the LO result solves d a/d ln μ² = β₀ a², a = α_s/4π = (returned value)/2, wherever defined -/
 theorem lo_solves_rge (nf as0 r20 L : ℝ) (hr : r20 ≠ 0) (hd : loDen nf as0 L ≠ 0) :
     HasDerivAt (fun l => a4pi (as2pf 0 nf (r20 * Real.exp l) as0 r20))
